@@ -32,6 +32,11 @@ FIXES = [
     ("fixed-C03-empty-multiple-exception", "C03", "MultipleException", "empty MultipleException"),
     ("fixed-C07-interface-typename", "C07", "__typename-on-interface", "__typename on an interface-typed selection"),
     ("fixed-C07-unknown-variable-type", "C07", "unknown-type", "type the schema does not define"),
+    ("fixed-C11-argument-type-stub", "C11", "argument_type_described_differently", "bare named type is the type itself"),
+    ("fixed-C11-empty-description", "C11", "VisitError", "empty description no longer crashes"),
+    ("fixed-C11-sdl-escape-passes", "C11", "differs", "decoded in a single pass"),
+    ("fixed-C11-leading-separators", "C11", "cook_failed", "optional leading separator"),
+    ("fixed-C11-number-exponent-name", "C11", "", "number in SDL is one token"),
     ("fixed-C06-subscription-root-repeated", "C06", "valid_request_refused", "single root field several times"),
 ]
 
